@@ -102,8 +102,44 @@ def session(rng):
     return s.ops
 
 
+def fanout_session(rng):
+    """several clients hold matching subscriptions on one channel (exact and wildcard filters); one or two of
+    them get a failing socket; every later publish must still reach all the others (the subscribers of one lookup
+    come out of a map, so several publishes are issued to see both orders)"""
+    s = Session(rng)
+    s.key("KA", R | W)
+    n = rng.choice([3, 4, 4, 5])
+    for i in range(n):
+        s.conn("c%d" % (i + 1))
+    ch = chan(rng, depth=rng.choice([1, 2, 3]))
+    parts = ch.rstrip(b"/").split(b"/")
+    for c in list(s.clients):
+        f = list(parts)
+        r = rng.randrange(4)
+        if r == 0:
+            f[rng.randrange(len(f))] = b"+"
+        elif r == 1 and len(f) > 1:
+            f = f[:-1]                                   # parent filter (emitter matcher: prefix)
+        s.sub(c, "KA", b"/".join(f) + b"/")
+    pubr = s.clients[0]
+    for _ in range(2):
+        s.pub(rng.choice(s.clients), "KA", ch, rbytes(rng, 2))
+    victims = rng.sample(s.clients[1:], rng.choice([1, 1, 2]))
+    for v in victims:
+        s.deafen(v)
+    for _ in range(rng.choice([6, 8, 10])):
+        s.pub(rng.choice(s.clients), "KA", ch, rbytes(rng, 2), opts=rng.choice([b"", b"", b"?me=0"]))
+    if len(s.clients) > 1 and rng.randrange(2):
+        s.unsub(s.clients[-1], "KA", ch)
+        s.pub(pubr, "KA", ch, rbytes(rng, 2))
+    s.dump()
+    return s.ops
+
+
 def gen(rng, tier):
     ops = []
+    for _ in range(budget(tier, 8, 400)):
+        ops += fanout_session(rng)
     for _ in range(budget(tier, 60, 4000)):
         ops += session(rng)
     return ops
